@@ -319,7 +319,20 @@ def gen_case(rng):
     if focus and rng.random() < 0.6:
         for _ in range(rng.randint(1, 3)):
             ops.insert(rng.randrange(len(ops) + 1), gen_partner_call(rng, font, focus))
-    return dict(font=font, from_disk=rng.random() < 0.08, ops=ops)
+    case = dict(font=font, from_disk=rng.random() < 0.15, ops=ops)
+    if case["from_disk"] and rng.random() < 0.7:
+        # a freshly opened UFO that is sorted while (most of) its glyphs are still unread: a few are read before the
+        # unicode data are first asked for; some glyphs carry, after their own, a code point another glyph has too
+        # (the answers must not depend on what has been read: the font is the same font)
+        case["lazy"] = True
+        names = [g[0] for g in font]
+        case["preread"] = rng.sample(names, min(len(names), rng.choice([0, 1, 1, 2, 3])))
+        encoded = [g for g in font if g[1]]
+        for _ in range(rng.choice([0, 1, 2, 3]) if len(encoded) >= 2 else 0):
+            a, b = rng.sample(encoded, 2)
+            if b[1][0] not in a[1]:
+                a[1] = a[1] + [b[1][0]]
+    return case
 
 
 def generate(rng, tier):
@@ -359,8 +372,24 @@ def neighbourhood(case, step, rng):
         yield dict(case, ops=vs[j:j + 12])
 
 
+UNCOVERED = []      # filled by extract(): code points whose script / category the ordered tables do not list
+
+
 def search(rng, tier, broken):
-    """directed search when a table obligation broke: every type on rich fonts"""
+    """directed search when a table obligation broke: fonts holding the code points the broken obligation names (a
+    script / category that is missing from the ordered tables loses exactly the names that carry it), then every type
+    on rich fonts"""
+    for k in range(40 if UNCOVERED else 0):
+        font = gen_font(rng)
+        taken = set(u for _, us in font for u in us)
+        extra = [v for v in rng.sample(UNCOVERED, min(len(UNCOVERED), rng.randint(1, 4))) if v not in taken]
+        font = font + [["uni%04X" % v, [v]] for v in extra]
+        fnames = [g[0] for g in font]
+        ops = []
+        for t in ("script", "category", "block", "unicode", "cannedDesign"):
+            ops.append(dict(names=(fnames if k % 2 else gen_names(rng, font) + fnames[-len(extra):]),
+                            descs=[[t, rng.choice([True, False]), rng.choice([True, False])]]))
+        yield dict(font=font, from_disk=False, ops=ops)
     for _ in range(400 if tier == "quick" else 4000):
         font = gen_font(rng)
         fnames = [g[0] for g in font]
@@ -386,6 +415,9 @@ def build_font(case, tmp=None):
         path = os.path.join(tmp, "f.ufo")
         font.save(path)
         font = Font(path)
+        if case.get("lazy"):
+            for n in case.get("preread", []):
+                font[n]
     return font
 
 
@@ -459,11 +491,14 @@ class _Catch(object):
         self.seen.append(notification.name)
 
 
-def snapshot(font):
+def snapshot(font, load=True):
     layer = font.layers.defaultLayer
     ud = font.unicodeData
     glyphs = []
     for name in sorted(font.keys()):
+        if not load and name not in layer._glyphs:      # a font sorted while unread is not read by the harness either
+            glyphs.append((name, "unread"))
+            continue
         g = font[name]
         glyphs.append((name, list(g.unicodes), bool(g.dirty), g.width, len(g), len(g.components)))
     return dict(glyphs=glyphs, order=list(font.glyphOrder), dirty=(bool(font.dirty), bool(layer.dirty), bool(ud.dirty)),
@@ -544,6 +579,10 @@ def _run_impl(case, tmp):
     viol = []
     stats = {"cases": 1, "font.glyphs": len(case["font"]), "font.from_disk": int(bool(case.get("from_disk")))}
     nontrivial = False
+    lazy = bool(case.get("lazy"))
+    firsts = []
+    if lazy:
+        stats["font.sorted_while_unread"] = 1
     fkeys = set(font.keys())
     # shapes of the close-relative relation in this font, read off the real look-ups
     close = {}
@@ -565,7 +604,7 @@ def _run_impl(case, tmp):
         descs = mk_descs(op["descs"])
         descs0 = copy.deepcopy(descs)
         public = all(d[0] in PUBLIC for d in op["descs"])
-        snap0 = snapshot(font)
+        snap0 = snapshot(font, load=not lazy)
         del catch.seen[:]
         result = result2 = None
         exc = None
@@ -577,7 +616,8 @@ def _run_impl(case, tmp):
         except Exception as e:  # noqa
             exc = type(e).__name__
             notes = list(catch.seen)
-        snap1 = snapshot(font)
+        snap1 = snapshot(font, load=not lazy)
+        firsts.append(None if exc is not None or not public else list(result))
         if exc is not None:
             outs.append([Atom("err"), Atom(exc)])
         else:
@@ -626,6 +666,25 @@ def _run_impl(case, tmp):
         partners = [ud.closeRelativeForGlyphName(n, True) for n in set(names0)]
         if any(p is not None and p not in names0 for p in partners):
             stats["with.partner_in_font_not_in_list"] = stats.get("with.partner_in_font_not_in_list", 0) + 1
+    if lazy:
+        # "gives the same answer on repeated calls": reading glyphs does not change the font, so the same calls made
+        # once every glyph has been read must answer what they answered while the glyphs were unread
+        unread = [n for n in sorted(fkeys) if n not in font.layers.defaultLayer._glyphs]
+        stats["font.unread_glyphs_at_the_end"] = len(unread)
+        for n in sorted(fkeys):
+            font[n]
+        for i, op in enumerate(case["ops"]):
+            if firsts[i] is None:
+                continue
+            try:
+                again = ud.sortGlyphNames(list(op["names"]), mk_descs(op["descs"]))
+            except Exception as e:  # noqa
+                again = "raised %s" % type(e).__name__
+            if again != firsts[i]:
+                viol.append(dict(clause="C20/deterministic", signature="C20/deterministic/after-reading-glyphs",
+                                 types=[d[0] for d in op["descs"]], step=i + 1, names=list(op["names"]),
+                                 unread_at_first_call=unread, first=firsts[i], again=again))
+                break
     return dict(out=outs, viol=viol, info=dict(nontrivial=nontrivial, stats=stats))
 
 
@@ -738,11 +797,16 @@ def extract(repo, lean_dir):
     # assumption of the partial theorem, enumerated: every script/category any code point can get is ordered
     scripts, cats = set(ut.orderedScripts), set(ut.orderedCategories)
     uncovered = []
+    seen_tags = set()
+    del UNCOVERED[:]
     for v in range(0x110000):
-        if ut.script(v) not in scripts or ut.category(v) not in cats:
-            uncovered.append(v)
-            if len(uncovered) > 5:
-                break
+        sc, ct = ut.script(v), ut.category(v)
+        if sc not in scripts or ct not in cats:
+            if len(uncovered) <= 5:
+                uncovered.append(v)
+            if (sc, ct) not in seen_tags and len(UNCOVERED) < 64 and not (0xD800 <= v <= 0xDFFF):
+                seen_tags.add((sc, ct))       # one code point per missing tag, for the failing-input search
+                UNCOVERED.append(v)
     body = []
     body.append("/-\nREGENERATED by harness/props/c20.py:extract from the working tree of defcon on every check - do not edit.\n"
                 "Constants of Lib/defcon/tools/unicodeTools.py and Lib/defcon/objects/uniData.py read from the imported\n"
